@@ -71,6 +71,8 @@ def fcalls(o):
 
 def to_case(o):
     k = o["kind"]
+    if k == "filled":
+        return "CFilled %s" % ("true" if o["ok"] else "false")
     if k == "payload":
         return "CPayload %d%%N %d%%N" % (o["msize"], o["cs"])
     if k == "bigwrite":
@@ -110,7 +112,7 @@ HEADER = ("From Coq Require Import ZArith NArith List.\nFrom P9V Require Import 
 
 
 def run(ctx):
-    rc, out, obs = ctx.gotest("p9", "^TestVerifC11$", ["vh_common_test.go", "vhcl_common_test.go", "c11_test.go"], timeout=900)
+    rc, out, obs = ctx.gotest("p9", "^TestVerifC11$", ["vh_common_test.go", "vhcl_common_test.go", "vhread_probe_test.go", "c11_test.go"], timeout=900)
     if rc != 0 or not obs:
         ctx.harness_broken("harness TestVerifC11 failed (rc=%d)" % rc, out)
         if not obs:
